@@ -49,6 +49,12 @@ def scenarios(rnd, tier):
         fr = c12.data_frame(rnd, rnd.randrange(2), c12.eapol_body(rnd, rnd.choice([0x008a, 0x010a, 0x13ca, 0x030a]), d, a))
         out.append(frames.mp_line(fr, rnd.randrange(3), rnd).replace("mp ", "eap ", 1))
         out.append(frames.mp_line(fr, rnd.randrange(3), rnd).replace("mp ", "cls ", 1))
+    # declared x available key-data grid (includes "declared > 0, nothing present" and the 1024 cap)
+    for d in (0, 1, 2, 16, 95, 1023, 1024, 1025, 2048, 65535):
+        for a in (0, 1, 2, 16, 94, 95, 96, 1023, 1024, 1025):
+            for qos in (0, 1):
+                fr = c12.data_frame(rnd, qos, c12.eapol_body(rnd, rnd.choice([0x008a, 0x010a, 0x13ca, 0x030a]), d, a))
+                out.append(frames.mp_line(fr, rnd.randrange(3), rnd).replace("mp ", "eap ", 1))
     return [l for l in out if len(l) < 6000]
 
 
